@@ -96,6 +96,11 @@ impl OperationControl for Repeat {
         // a minimum beyond that can only be reached with empty iterations,
         // and where one empty iteration is possible any number of them is
         let min = self.min.min(bound);
+        // The guard against endless zero-length iterations treats several
+        // results at the same position as lack of progress. A term with a
+        // non-zero minimum length always makes progress, and different
+        // ways of reaching the same position are legitimate results.
+        let needs_progress_guard = self.operation.get_minimum_match_length() == 0;
         let mut p = position;
         if self.greedy {
             // Prime the arrays first with iterators up to the maximum length,
@@ -127,27 +132,33 @@ impl OperationControl for Repeat {
             }
             // Now return an iterator which returns all the matching positions
             // in order
-            Box::new(ForceProgressIterator::new(Box::new(
-                GreedyRepeatIterator::new(
-                    matcher,
-                    self.operation.as_ref(),
-                    iterators,
-                    positions,
-                    bound,
-                    min,
-                ),
-            )))
+            let iter = GreedyRepeatIterator::new(
+                matcher,
+                self.operation.as_ref(),
+                iterators,
+                positions,
+                bound,
+                min,
+            );
+            if needs_progress_guard {
+                Box::new(ForceProgressIterator::new(Box::new(iter)))
+            } else {
+                Box::new(iter)
+            }
         } else {
             // reluctant (non-greedy) repeat.
-            Box::new(ForceProgressIterator::new(Box::new(
-                ReluctantRepeatIterator::new(
-                    matcher,
-                    self.operation.as_ref(),
-                    position,
-                    min,
-                    self.max,
-                ),
-            )))
+            let iter = ReluctantRepeatIterator::new(
+                matcher,
+                self.operation.as_ref(),
+                position,
+                min,
+                self.max,
+            );
+            if needs_progress_guard {
+                Box::new(ForceProgressIterator::new(Box::new(iter)))
+            } else {
+                Box::new(iter)
+            }
         }
     }
 
